@@ -20,6 +20,7 @@ package main
 
 import (
 	"fmt"
+	"os"
 	"sort"
 	"strings"
 
@@ -148,13 +149,52 @@ func nPad(r *rng, n int) string {
 	return string(b)
 }
 
-// nPadLen: a log-scale filler length reaching beyond the 4 KiB URL cap.
+// The Lean driver evaluates the model on every op line.  For the WIRE-level families (parsed rule records and the
+// pattern oracle on the line: match, c04.match, c01.matchall, c02.dns, c06.*, c07.*, scale.*) its cost is linear
+// in the sizes drawn here.  The TEXT-level families make it parse rule texts and run compiled patterns itself
+// (i1.*, i2.*, i3.*, l.*, c04.parse, c04.textmatch, c05.*, re*): the text parsers are quadratic in the length of
+// a rule text (0.35 s for a 300-value list) and the regex model is quadratic in the URL length (minutes for
+// `*banner^` on an 8 KiB URL).  For those families the wide draws are capped: value lists at 48 (1 wide draw in
+// 16 goes to the full range), URL filler at 160 bytes; the full ranges are exercised by the wire-level families
+// and by the Go-only `assert` ops of the same properties.
+var nTextLevel = func() bool {
+	if len(os.Args) < 3 || os.Args[1] != "gen" {
+		return false
+	}
+	for _, p := range []string{"i1.", "i2.", "i3.", "l.", "c04.parse", "c04.textmatch", "c04.units", "c05.tree", "c05.url", "c05.shortcut", "re"} {
+		if strings.HasPrefix(os.Args[2], p) {
+			return true
+		}
+	}
+
+	return false
+}()
+
+// nValueCount: a log-scale number of values of one modifier list in [lo, hi] (capped for text-level families).
+func nValueCount(r *rng, lo, hi int) int {
+	if nTextLevel && hi > 48 && !r.chance(1, 16) {
+		hi = 48
+	}
+
+	return nLog(r, lo, hi)
+}
+
+// nPadLog: a log-scale URL filler length in [lo, hi] (capped for text-level families).
+func nPadLog(r *rng, lo, hi int) int {
+	if nTextLevel && hi > 160 {
+		hi = 160
+	}
+
+	return nLog(r, lo, hi)
+}
+
+// nPadLen: a log-scale filler length reaching beyond the 4 KiB URL cap (landmark values now and then).
 func nPadLen(r *rng) int {
-	if r.chance(1, 6) {
+	if !nTextLevel && r.chance(1, 6) {
 		return pick(r, []int{64, 100, 128, 255, 256, 1000, 1024, 1500, 2048, 4000, 4096, 4200})
 	}
 
-	return nLog(r, 32, 5000)
+	return nPadLog(r, 32, 5000)
 }
 
 // nLongURL inserts filler into the path of u (directly after the host part) so that what used to
@@ -259,4 +299,23 @@ func nSeenPat(pats *[]string, p string) bool {
 	}
 
 	return false
+}
+
+// nOpsFor: how many requests to run against one scenario built from list BYTES (i1.*, i3.*).  The driver parses
+// every line of the scenario again for every op, and its text parsers are quadratic in the line length: a
+// scenario with a line longer than the 4 KiB read buffer costs 1.5..2 s per op, one with a hundred lines about as
+// much.  Such scenarios get 2 requests instead of the usual 5 or 6.
+func nOpsFor(sc *i1Scenario, usual int) int {
+	total := 0
+	for _, t := range sc.all {
+		total += len(t)
+		if len(t) > 3000 {
+			return 2
+		}
+	}
+	if total > 6000 {
+		return 2
+	}
+
+	return usual
 }
